@@ -11,7 +11,7 @@ import ast
 from ..cfg import CFG, count_on_paths, describe_path, find_path
 from ..core import Ctx
 from ..facts import ShapeError, call_name, calls_in, dotted, kwarg, norm, walk_no_nested
-from ..tables import Opaque, decide
+from ..tables import Inst, Opaque, decide
 
 OPS = 'fpy2/ops.py'
 ENGINE = 'fpy2/number/engine/engine.py'
@@ -805,6 +805,58 @@ def t2_real_specials(ctx: Ctx):
                         good = isinstance(got, tuple) and got[0] == k and got[1] in signs
                         ctx.check(good, REAL, st or m, q, row + f' -> {k} with sign {sorted(signs)[0]}',
                                   f'source yields {got or val!r}')
+    # a Float zero times a finite operand of either kind is a zero whose sign is the product of the signs: the rational
+    # product of the mixed arms (`x * y.as_rational()`) has no signed zero to return
+    m = meths['mul']
+    q = 'RealEngine.mul'
+    for xk, yk in (('Fraction', 'Float'), ('Float', 'Fraction'), ('Float', 'Float')):
+        for zero_side in ('x', 'y'):
+            if {'x': xk, 'y': yk}[zero_side] != 'Float':
+                continue
+            env = {'x': Inst(xk), 'y': Inst(yk)}
+            for v in ('x', 'y'):
+                env[f'_is_nan({v})'] = False
+                env[f'_is_inf({v})'] = False
+                env[f'_is_zero({v})'] = v == zero_side
+                env[f'{v}.is_zero()'] = v == zero_side
+            row = f'mul({xk} {"zero" if zero_side == "x" else "finite"}, {yk} {"zero" if zero_side == "y" else "finite"})'
+
+            def truth(t: ast.AST):
+                """Value of a test built from isinstance(v, Float) / v.is_zero() / and / or / not, else None."""
+                if isinstance(t, ast.BoolOp):
+                    vs = [truth(v) for v in t.values]
+                    if None in vs:
+                        return None
+                    return all(vs) if isinstance(t.op, ast.And) else any(vs)
+                if isinstance(t, ast.UnaryOp) and isinstance(t.op, ast.Not):
+                    v = truth(t.operand)
+                    return None if v is None else not v
+                s = norm(t)
+                for v, kind in (('x', xk), ('y', yk)):
+                    if s == f'isinstance({v}, Float)':
+                        return kind == 'Float'
+                    if s == f'isinstance({v}, Fraction)':
+                        return kind == 'Fraction'
+                    if s in (f'{v}.is_zero()', f'_is_zero({v})'):
+                        return v == zero_side
+                return None
+            for node in ast.walk(m):
+                if isinstance(node, ast.If) and 'is_zero' in norm(node.test) and 'isinstance' in norm(node.test):
+                    tv = truth(node.test)
+                    if tv is not None:
+                        env[norm(node.test)] = tv
+            try:
+                kind, val, st = decide(repo, REAL, m.body, env)
+                got = _classify_float_call(val, env) if kind == 'return' else None
+            except ShapeError as e:
+                kind, val, st, got = 'undecided', e, None, None
+            if (xk, yk) == ('Float', 'Float') and got is None:
+                # Float * Float goes through RealFloat multiplication, which carries the sign (C05)
+                ctx.ok(REAL, st or m, q, row + ' -> exact RealFloat product (signed)')
+                continue
+            good = isinstance(got, tuple) and got[0] == 'zero' and got[1] in XOR
+            ctx.check(good, REAL, st or m, q, row + ' -> zero with sign _signbit(x) != _signbit(y)',
+                      f'source yields {got or val!r}: (1/3) * -0.0 is -0.0, the Fraction product is 0 without a sign')
 
 
 # ----------------------------------------------------------------------
@@ -841,8 +893,16 @@ def g1_helper_methods(ctx: Ctx):
     for s in walk_no_nested(fn):
         if isinstance(s, ast.Assign) and floors and s.value is floors[0] and isinstance(s.targets[0], ast.Name):
             qn = s.targets[0].id
-    good = last is not None and qn is not None and norm(last.value) in (f'{x} - {qn} * {y}', f'{x} - {y} * {qn}')
+    # the remainder: computed exactly, returned as it is -- except that a zero remainder takes the sign of y
+    forms = (f'{x} - {qn} * {y}', f'{x} - {y} * {qn}')
+    rem = [s for s in walk_no_nested(fn) if isinstance(s, ast.Assign) and isinstance(s.targets[0], ast.Name) and norm(s.value) in forms]
+    rn = rem[0].targets[0].id if len(rem) == 1 else None
+    good = last is not None and qn is not None and (norm(last.value) in forms or (rn is not None and norm(last.value) == rn))
     ctx.check(good, GMP, last or fn, q, 'the remainder is x - floor(x / y) * y in exact arithmetic', f'got {norm(last.value) if last is not None else None}')
+    zero_arm = [s for s in walk_no_nested(fn) if rn is not None and isinstance(s, ast.If) and norm(s.test) == f'{rn}.is_zero()'
+                and len(s.body) >= 1 and isinstance(s.body[-1], ast.Return) and norm(s.body[-1].value) == f'Float(x={rn}, s={y}.s)']
+    ctx.check(len(zero_arm) == 1, GMP, rem[0] if rem else fn, q, 'an exact multiple leaves a zero with the sign of y (as every other result of the operation has)',
+              'the zero of an exact multiple is +0 whatever y is: mod(4, -2) is +0, Python\'s 4.0 % -2.0 and this function\'s own zero-x arm give -0')
     # special operands: the table of Python's `%` on floats
     rows = [
         ({f'{x}.isnan or {y}.isnan': True}, 'nan', 'NaN operand -> NaN'),
